@@ -16,6 +16,8 @@ _libc = ctypes.CDLL(None, use_errno=True)
 IN_CLOSE_NOWRITE = 0x10
 IN_NONBLOCK = 0o4000
 IN_CLOEXEC = 0o2000000
+_IFD = None
+_IFD_PID = None
 
 
 class DaemonDied(Exception):
@@ -218,10 +220,20 @@ class Daemon:
     def reload(self, new_conf_text, timeout=IO_TIMEOUT):
         """Rewrite the config file, SIGUSR1, wait for the daemon's close of the
         file (inotify), then a barrier: when it answers the reload is done."""
-        if self.ifd is None:
-            self.ifd = _libc.inotify_init1(IN_NONBLOCK | IN_CLOEXEC)
-            if self.ifd < 0:
-                raise vc.MachineryError("inotify_init1 failed")
+        global _IFD, _IFD_PID
+        if _IFD is None or _IFD_PID != os.getpid():   # never share an instance across fork()
+            _IFD_PID = os.getpid()
+            _IFD = _libc.inotify_init1(IN_NONBLOCK | IN_CLOEXEC)   # one instance per worker process, reused
+            if _IFD < 0:
+                _IFD = None
+                raise vc.MachineryError("inotify_init1 failed (errno %d)" % ctypes.get_errno())
+        self.ifd = _IFD
+        # drain stale events
+        try:
+            while True:
+                os.read(self.ifd, 4096)
+        except (BlockingIOError, OSError):
+            pass
         with open(self.conf_path, "w", encoding="latin-1") as fh:
             fh.write(new_conf_text)
         wd = _libc.inotify_add_watch(self.ifd, self.conf_path.encode(), IN_CLOSE_NOWRITE)
@@ -284,9 +296,7 @@ class Daemon:
                 f.close()
             except OSError:
                 pass
-        if self.ifd is not None:
-            os.close(self.ifd)
-            self.ifd = None
+        self.ifd = None
 
     def _stderr(self):
         try:
